@@ -27,9 +27,8 @@ CLAIMED = {
               "filter are verified against whole-view postconditions (exactly the positions hash mod number_bits are or-ed in, "
               "nothing else changes); lemmas: add establishes, every other add / union / growth / close+reopen / "
               "bytes round trip preserves 'all positions of the key are set', which implies check",
-              "the hex channel and the constructors' filepath= argument are covered only by the bounded history stand-in (the "
-              "expanding filter's export / loader / bytes round trip and the path channel of export and _load are under "
-              "contract)", tech=_TB),
+              "every channel of the plain filter (bytes, file object, path, filepath=, hex) and the expanding filter's export / "
+              "loader / bytes round trip are under contract; the bounded history stand-in cross-checks them natively", tech=_TB),
     "C02": _c("CountMinSketch add_alt/remove_alt/check_alt and the key-level wrappers are verified for all widths, depths and hash "
               "lists (one counter per row, all others untouched, saturating arithmetic, returned value = following check); lemmas "
               "give the lower bound under additions and own removals and the upper bound by the total",
@@ -50,8 +49,9 @@ CLAIMED = {
               "_parse_blooms, __load on a mapped file, frombytes of both classes and the bytes round-trip lemma are discharged; "
               "counting Bloom format (uint32 cells): export, __bytes__, _parse_bloom_array, _load, frombytes and the bytes "
               "round-trip lemma are discharged; path channel (open(path,'wb') / MMap(path) over the modelled file system) of export and of the "
-              "loaders of Bloom, counting Bloom, count-min and expanding filters discharged; cuckoo formats, the hex channel and "
-              "the constructors' filepath= argument: bounded history stand-in; one known finding (fingerprint 0)", tech=_TB),
+              "loaders of Bloom, counting Bloom, count-min and expanding filters discharged; the constructors' filepath= argument and the hex channel (export_hex, _load_hex, "
+              "hex_string=, round-trip lemmas; hex text = sequence of digit values) of Bloom and counting Bloom discharged; "
+              "cuckoo formats: bounded history stand-in; one known finding (fingerprint 0)", tech=_TB),
     "C06": _c("the export contracts ARE the documented layout (cells, then footer fields at fixed offsets, little endian, bit i in "
               "byte i div 8); the default hash is proved to be the published FNV-1a recurrence seeded per index; positions are "
               "hash mod size by the add contracts",
